@@ -120,6 +120,10 @@ def gen_exp(rnd, cfg, depth, calls, allcalls=(), itemful=False, innames=False):
         body = ('seq', (sub(), ('cut',), sub()))
         r = rnd.random()
         # cuts inside optionals and closures are the scopes with their own code paths
+        if 0.4 <= r < 0.55:
+            # the cut written directly in a plain group: ( x ~ ) y  and  ( x ~ y )
+            a, _, b = body[1]
+            return ('seq', (('grp', ('seq', (a, ('cut',)))), b)) if r < 0.48 else ('grp', body)
         return ('opt', body) if r < 0.25 else ('star', body) if r < 0.4 else body
     if k in ('grp', 'opt', 'skipgrp', 'skipto', 'and', 'not'):
         return (k, sub())
